@@ -3,7 +3,7 @@ EXTENDS FailProb, TLC
 CONSTANTS DMax
 VARIABLES s50, k, d, t, zoom, z
 vars == <<s50, k, d, t, zoom, z>>
-Zooms(c) == {Step(c), 100 * Step(c)}                        \* all log-distances (median ratio and both scatters) divided by zoom: the probit is a ratio of log-distances and cannot change
+Zooms(c) == {Step(c), 100 * Step(c), 100000 * Step(c)}                        \* all log-distances (median ratio and both scatters) divided by zoom: the probit is a ratio of log-distances and cannot change
 S50s == {30, 40, 50}                     \* log10 of the strength median: 1.5, 2, 2.5 decades
 FarPos == {20, 24, 28, 32, 35, 40, 48, 56}      \* medians up to 2.8 decades apart: probits beyond +-7 (probabilities below 1e-12 / above 1 - 1e-12) for every triple
 Far == FarPos \cup {-x : x \in FarPos}
